@@ -99,6 +99,27 @@ func main() {
 		}
 	}
 
+	// a cut naming a module function that no longer exists must not silently disappear
+	known := map[string]bool{}
+	for fn := range ssautil.AllFunctions(prog) {
+		if fn != nil {
+			known[fn.String()] = true
+			if o := fn.Origin(); o != nil {
+				known[o.String()] = true
+			}
+		}
+	}
+	for name, kind := range cutMap {
+		if strings.Contains(name, modPath) && !known[name] {
+			fmt.Fprintf(os.Stderr, "cut target %s does not exist in the current tree (renamed?): the harness has to be adapted\n", name)
+			os.Exit(2)
+		}
+		if strings.HasPrefix(kind, "call:") && !known[kind[5:]] {
+			fmt.Fprintf(os.Stderr, "cut replacement %s does not exist\n", kind[5:])
+			os.Exit(2)
+		}
+	}
+
 	results := map[string]*symex.Result{}
 	for _, en := range entries {
 		fn := target.Func(en)
